@@ -14,7 +14,7 @@
  *                resolver-context ledger invariants; idnkit-only search with injected create/initialize failures
  *   --prop C15   eav_setup clause: return value and eav_errstr for every rfc value class
  */
-#include "../mc/mc.h"
+#include "corpus.h"
 #include <dlfcn.h>
 #include <limits.h>
 
@@ -421,6 +421,29 @@ static void setup_values(long shard, void *arg) {
     }
 }
 
+/* ---------------------------------------------------------------- C18, E-INPUT part: the corpora through the three builds side by side */
+static void *COBJ[3][4][2]; static int CURPH; static int C_CORPUS;
+static void corpus_sink(const unsigned char *s, size_t n, void *arg) {
+    (void)arg; static char buf[70100]; if (n + 2 > sizeof buf) return;
+    for (size_t i = 0; i < n; i++) if (!s[i]) return;
+    memcpy(buf, s, n); buf[n] = 0;
+    mc_current(corpus_name(CURPH), "", s, n); MC_ADD(C_CORPUS, 1);
+    for (int m = 0; m < 4; m++) for (int t = 0; t < 2; t++) {
+        char out[3][512];
+        for (int li = 0; li < NLIB; li++) { int r = LIB[li].is_email(COBJ[li][m][t], buf, n); LIB[li].outcome(COBJ[li][m][t], r, out[li], sizeof out[li]); MC_ADD(C_EVAL, 1); }
+        for (int li = 1; li < NLIB; li++) if (strcmp(out[0], out[li])) {
+            char cfg[48]; snprintf(cfg, sizeof cfg, "mode=%d tld=%d", m, t);
+            mc_violation(n > MC_CASEMAX ? "noreplay-long-input" : corpus_name(CURPH), "backend:corpus-outcome-differs", "", cfg, s, n, "[%s] %s ; [%s] %s", LIB[0].name, out[0], LIB[li].name, out[li]);
+        }
+    }
+    MC_ADD(C_NONTRIV, 1);
+}
+static void corpus_objects(void) {
+    for (int li = 0; li < NLIB; li++) for (int m = 0; m < 4; m++) for (int t = 0; t < 2; t++) {
+        void *o = LIB[li].new_(0xA5); LIB[li].init(o); LIB[li].set_rfc(o, m); LIB[li].set_tld(o, t); if (LIB[li].setup(o)) { fprintf(stderr, "setup\n"); exit(2); } COBJ[li][m][t] = o; }
+}
+static void corpus_shard(long shard, void *arg) { (void)arg; corpus_run(CURPH, shard, corpus_sink, NULL); }
+
 static int do_replay(void) {
     mc_replay_t rp; if (mc_load_replay(mc_replay, &rp)) return 2;
     hist_t h; h.n = rp.len / 4; if (h.n > HMAX) h.n = HMAX; memcpy(h.op, rp.in, (size_t)h.n * 4);
@@ -464,6 +487,13 @@ int main(int argc, char **argv) {
     if (!strcmp(PROP, "C18")) { NPOOL = mc_thorough ? 16 : 8; NMASK = mc_thorough ? 4 : 3; NPOISON = 1; }
     fresh_precompute();
     if (mc_replay) return do_replay();
+    C_CORPUS = mc_counter("corpus_addresses_through_all_backends");
+    if (!strcmp(PROP, "C18corpus")) {
+        mc_driver = "C18"; CORPUS_DEEP = mc_thorough; if (corpus_load()) return 2; corpus_objects();
+        static const int PH[] = { CP_TLD, CP_IDN, CP_EMAIL, CP_DOMAIN, CP_LITERAL, CP_LOCAL, CP_BYTES, CP_CROSS };
+        for (unsigned i = 0; i < sizeof PH / sizeof PH[0]; i++) { CURPH = PH[i]; char nm[64]; snprintf(nm, sizeof nm, "3 backends: %.40s", corpus_name(CURPH)); mc_parallel(nm, corpus_shards(CURPH), corpus_shard, NULL); }
+        return mc_finish();
+    }
     if (!strcmp(PROP, "C15")) { mc_parallel("eav_setup over rfc value classes x prior mode", 1, setup_values, NULL); return mc_finish(); }
     mc_parallel(CTXFAIL ? "BFS to fixpoint (idnkit build, create/initialize failures as transitions)" : FAULTS ? "BFS to fixpoint with IDN fault transitions (<=2 faults per history)" : "BFS to fixpoint over the API menu", 1, bfs, NULL);
     if (FAULTS) mc_parallel("runs of n validations: single fault at every position x every code x buffer; double faults n<=6", mc_thorough ? 50 : 8, fault_runs, NULL);
